@@ -322,17 +322,13 @@ def kf_group_alg_loop(case, mode, im, dev):
         if is_alg and any(grp[e["src"][0]] == grp[t] for t in finals if t in grp):
             return True
     # the same across groups: edges with algebraic sources that form a cycle on the level of the merged groups (group A's algebraic output feeds group B
-    # whose algebraic output feeds group A) although no cycle exists between the individual nodes
+    # whose algebraic output feeds group A) although no cycle exists between the individual nodes.  Edge operators are merged into groups as well (all edges
+    # that carry the same edge template): they are vertices of this graph like the node groups.
     arcs = {}
     for e in flat["edges"]:
-        if e["src"][0] in edge_nodes:
-            continue
         o = ops[(e["src"][0], e["src"][1])]
-        if any(q["lhs"] == e["src"][2] and not q["de"] for q in o["eqs"]):
-            finals = out_of.get(e["tgt"][0], []) if e["tgt"][0] in edge_nodes else [e["tgt"][0]]
-            for t in finals:
-                if t in grp:
-                    arcs.setdefault(grp[e["src"][0]], set()).add(grp[t])
+        if any(q["lhs"] == e["src"][2] and not q["de"] for q in o["eqs"]) and e["tgt"][0] in grp:
+            arcs.setdefault(grp[e["src"][0]], set()).add(grp[e["tgt"][0]])
     def reach(a, b, seen):
         for nx in arcs.get(a, ()):
             if nx == b or (nx not in seen and reach(nx, b, seen | {nx})):
